@@ -769,7 +769,22 @@ fn run_history(h: &History, seed: u64) -> RunOut {
         for (tid, ops) in h.threads.iter().enumerate() {
             let ctx = &ctx;
             let end_add = h.end_add.get(tid).copied().unwrap_or(true);
-            s.spawn(move || worker(ctx, tid, ops, end_add, seed));
+            s.spawn(move || {
+                // A panic inside the pool (stale index, layout assertion, poisoned
+                // lock after another thread's panic) is an observation, not a
+                // harness failure.
+                let r = std::panic::catch_unwind(std::panic::AssertUnwindSafe(|| worker(ctx, tid, ops, end_add, seed)));
+                if let Err(p) = r {
+                    let msg = p.downcast_ref::<String>().cloned().or_else(|| p.downcast_ref::<&str>().map(|s| s.to_string())).unwrap_or_else(|| "panic".into());
+                    let mut l = ctx.ledger.lock().unwrap_or_else(|e| e.into_inner());
+                    if !msg.contains("PoisonError") || l.viols.is_empty() {
+                        l.viols.push(Viol { kind: "panic_in_pool_call", ty: Ty::F32, detail: format!("thread {} panicked inside a buffer pool call: {}", tid, msg) });
+                    }
+                    drop(l);
+                    ctx.active.fetch_sub(1, SeqCst);
+                    YSTATE.with(|c| c.set(0));
+                }
+            });
         }
         start.store(true, SeqCst);
     });
@@ -786,7 +801,7 @@ fn run_history(h: &History, seed: u64) -> RunOut {
     out.pool_len_at_end = pool.len() as u64;
     track::scope(|| drop(pool));
 
-    let mut l = ledger.into_inner().unwrap();
+    let mut l = ledger.into_inner().unwrap_or_else(|e| e.into_inner());
     if !l.live.is_empty() && l.harness_error.is_none() {
         l.harness_error = Some(format!("{} buffers still registered after all threads gave everything back", l.live.len()));
     }
